@@ -104,6 +104,25 @@ def run(ck: Check):
                     lg.train()
                     got = outcome(lambda: lg(torch.rand(2, n)))
                     record("dense-gumbel", {"param": par, "mode": mode, "tau": jnum(tau), "bad": "tau"}, tau > 0, got)
+    # outside the Gumbel modes too, a temperature that is not a positive finite number gives NaN / an inverted weighting in
+    # training mode (eval does not use it and must keep working)
+    for par in ("raw", "walsh"):
+        for mode in ("soft", "hard", "gumbel_soft", "gumbel_hard"):
+            for tau in (0.0, -1.0, float("nan"), float("inf"), 2.5):
+                for kind in ("dense", "conv"):
+                    if kind == "dense":
+                        lt = LogicDense(4, 3, device="cpu", parametrization=par, forward_sampling=mode, temperature=tau)
+                        xt = torch.rand(2, 4)
+                    else:
+                        lt = LogicConv2d(in_dim=(3, 3), device="cpu", channels=1, num_kernels=2, tree_depth=1, receptive_field_size=2,
+                                         parametrization=par, forward_sampling=mode, temperature=tau)
+                        xt = torch.rand(2, 1, 3, 3)
+                    lt.train()
+                    got = outcome(lambda: lt(xt))
+                    record(kind + "-temperature", {"param": par, "mode": mode, "tau": jnum(tau), "bad": "tau"}, 0 < tau < float("inf"), got)
+                    lt.eval()
+                    got = outcome(lambda: lt(xt))
+                    record(kind + "-temperature-eval", {"param": par, "mode": mode, "tau": jnum(tau), "bad": "eval-ignores-tau"}, True, got)
     # an unknown sampling mode (given to the constructor or assigned later) must not silently compute something in training mode
     for par in ("raw", "walsh"):
         for mode in ("Soft", "sample", None, "gumbel", "soft", "hard"):
@@ -260,6 +279,19 @@ def run(ck: Check):
             ok_shape = len(shp) == 2 and shp[1] == 11          # LogicDense takes (batch, in_dim) only
             got = outcome(lambda: net2.forward(_np.zeros(shp, dtype=bool)))
             record("compiled-forward-shape", {"groupsum": with_gs, "x_shape": list(shp), "bad": "sample-size"}, ok_shape, got)
+            fwd_rows.append(([11], False, list(shp), got[0] == "returned"))
+        # the same library through load(): a loaded handle knows its declared shape only and takes (batch, in_dim) like the layer
+        lp2 = os.path.join(ck.scratch, f"c19_sz_{int(with_gs)}.so")
+        try:
+            hc.compile_net(net2, save=lp2)
+            h2 = CompiledLogicNet.load(lp2, (11,), 3 if with_gs else None, 8, **({} if with_gs else {"output_size": 24}))
+        except Exception as e:
+            ck.broke("correspondence", "harness", f"could not save / load the size-probe library: {e!r}")
+            continue
+        for shp in ((8, 11), (8, 10), (11,), (8, 11, 1), (8, 1, 11), (3, 11)):
+            ok_shape = len(shp) == 2 and shp[1] == 11
+            got = outcome(lambda: h2.forward(_np.zeros(shp, dtype=bool)))
+            record("loaded-forward-shape", {"groupsum": with_gs, "x_shape": list(shp), "bad": "sample-size"}, ok_shape, got)
             fwd_rows.append(([11], False, list(shp), got[0] == "returned"))
     # image models: the declared (channels, height, width) layout or flattened samples, nothing else of the same volume;
     # a dense model behind a leading Flatten takes any layout of the right volume (as Flatten does)
